@@ -755,6 +755,10 @@ def pncbo(op, ifile1, ifile2, coordkeys=None, verbose=0):
             propd['units'] = '(%s) %s (%s)' % (unit1, op, unit2)
             outval = np.ma.masked_invalid(
                 eval('in1var[...] %s in2var[...]' % op).view(np.ndarray))
+            if outval.shape != in1var.shape:
+                raise ValueError(
+                    '%s: result shape %s differs from shape %s in ifile1'
+                    % (k, outval.shape, in1var.shape))
             outvar = tmpfile.createVariable(
                 k, in1var.dtype.char, in1var.dimensions, fill_value=-999,
                 values=outval)
